@@ -309,15 +309,9 @@ pub fn run_proc(dir: &RunDir, p: &Proc, log: &mut Vec<String>) -> Result<ProcOut
     if let Ok(r) = std::env::var("SKASIM_RECORD_TO") {
         cmd.env("SKASIM_RECORD", r);
     }
-    unsafe {
-        use std::os::unix::process::CommandExt;
-        cmd.pre_exec(|| {
-            // wall-clock backstop expressed as CPU time (the child is one CPU-bound OS thread)
-            let l = libc::rlimit { rlim_cur: 300, rlim_max: 300 };
-            libc::setrlimit(libc::RLIMIT_CPU, &l);
-            Ok(())
-        });
-    }
+    // no pre_exec: keeps std on the posix_spawn path (a fork of the 16-thread parent is very slow);
+    // the CPU backstop is set by the child itself (SKASIM_CPU)
+    cmd.env("SKASIM_CPU", "300");
     let out = cmd
         .output()
         .map_err(|e| HarnessError(format!("cannot spawn simulated process: {e}")))?;
